@@ -566,6 +566,45 @@ fn run_type<T: Text>(rec: &mut Rec, prop: &str, seed: u64, thorough: bool) {
         }
         return;
     }
+    if thorough && n == 1 {
+        // thorough tier: the 8-bit types completely -- every value in every radix, and the numerals of every
+        // magnitude 0..=300 (all representable values and the first unrepresentable ones) with every sign prefix
+        let all: Vec<B> = (0..=255u8).map(|v| vec![v]).collect();
+        match prop {
+            "C10" => {
+                for radix in 2..=36u32 {
+                    for m in 0..=300u32 {
+                        let ds: Vec<u8> = to_digits(&vec![m as u8, (m >> 8) as u8], radix).into_iter().map(|d| digit_char(d, m % 2 == 0)).collect();
+                        for pre in [&b""[..], b"+", b"-", b"0", b"-0", b"+00"] {
+                            let mut sv = pre.to_vec();
+                            sv.extend(&ds);
+                            T::parse_events(rec, &sv, radix);
+                        }
+                    }
+                }
+                for radix in 2..=256u32 {
+                    for m in (0..=300u32).step_by(if radix <= 36 { 1 } else { 7 }) {
+                        let ds = to_digits(&vec![m as u8, (m >> 8) as u8], radix);
+                        T::from_radix_events(rec, &ds, radix);
+                    }
+                }
+            }
+            "C11" => {
+                for radix in 2..=256u32 {
+                    for b in all.iter() {
+                        T::to_radix_events(rec, T::dec(b), radix);
+                    }
+                }
+            }
+            "C12" => {
+                for b in all.iter() {
+                    fmt_events(rec, &mut r, T::dec(b), 40);
+                }
+            }
+            _ => panic!("unknown property"),
+        }
+        return;
+    }
     match prop {
         "C10" => {
             for radix in radices_str(&mut r, thorough) {
